@@ -17,6 +17,7 @@ import (
 var ErrExecutorNotRunning = errors.New("executor not running")
 
 type ThreadPoolExecutor struct {
+	guard   sync.RWMutex // Execute holds it (shared) from its state check until the task is queued
 	done    chan struct{}
 	wg      sync.WaitGroup
 	state   fatchoy.State //
@@ -41,6 +42,8 @@ func NewAsyncExecutor(capacity int) Executor {
 
 func (e *ThreadPoolExecutor) Execute(r Runnable) error {
 	e.start()
+	e.guard.RLock()
+	defer e.guard.RUnlock()
 	if e.state.Get() != fatchoy.StateRunning {
 		return ErrExecutorNotRunning
 	}
@@ -50,7 +53,12 @@ func (e *ThreadPoolExecutor) Execute(r Runnable) error {
 }
 
 func (e *ThreadPoolExecutor) Shutdown() {
-	if !e.state.CAS(fatchoy.StateRunning, fatchoy.StateShutdown) {
+	// shutdown begins only when no Execute is between its state check and its enqueue:
+	// whatever has been accepted is in the queue before the workers are told to drain it
+	e.guard.Lock()
+	var ok = e.state.CAS(fatchoy.StateRunning, fatchoy.StateShutdown)
+	e.guard.Unlock()
+	if !ok {
 		return
 	}
 	close(e.done)
